@@ -631,7 +631,16 @@ def _check_schema_gen(case, names, depth, option_bits, have_drv, n_adhoc, seed):
             if v and v not in schema.type_map and v not in near:
                 near.append(v)
     nrng = random.Random(f"c18-near:{seed}:{case.get('idx', 0)}")
-    lookup_names = type_names + ["NoSuchType"] + nrng.sample(near, min(8, len(near)))
+    # well-known names that this schema happens not to contain (standard scalars it does not use, directive names,
+    # conventional root names): a lookup must be answered from *this* schema's type map, i.e. null
+    wellknown = [
+        n for n in ("Int", "Float", "ID", "String", "Boolean", "__Schema", "__Type", "__TypeKind", "__Field", "__InputValue",
+                    "__EnumValue", "__Directive", "__DirectiveLocation", "skip", "include", "deprecated", "specifiedBy", "oneOf",
+                    "defer", "stream", "Query", "Mutation", "Subscription")
+        if n not in schema.type_map
+    ]
+    rep.stats["lookup_absent_standard_scalars"] = sum(1 for n in wellknown if n in ("Int", "Float", "ID"))
+    lookup_names = type_names + ["NoSuchType"] + wellknown + nrng.sample(near, min(8, len(near)))
     nontrivial_features = sum([
         any(t["kind"] == "INTERFACE" and t["interfaces"] for t in full["__schema"]["types"]),
         any(t["kind"] == "UNION" for t in full["__schema"]["types"]),
